@@ -155,6 +155,22 @@ def run_interrupted(cfg):
                 r.violation(f"C08/interrupted/evidence-differs/{route}", {"reference": ref[:2], "resumed": got[:2]}, case)
             for sig, detail in check_evidence(dict(to_rec(rr), result=rr.result)):
                 r.violation(sig + "/resumed-" + route, detail, case)
+    # the resuming call may name another n_samples (nothing is drawn on resume, the population is the checkpoint's):
+    # the ratios and variances of the remaining steps are those of the stored populations
+    seen = set()
+    for it, payload in R.sink:
+        if it in seen or it >= len(R.history["beta"]):
+            continue
+        seen.add(it)
+        for other in (cfg["N"] * 2, max(2, cfg["N"] // 2)):
+            rr = rh.run(dict(cfg, N=other), resume_from=payload)
+            case = {"interrupted": True, "cfg": cfg, "resumed_from_iteration": it, "n_samples_of_the_resuming_call": other}
+            r.case(explorer.digest([cfg, "other-n", it, other]), nontrivial=True)
+            if rr.exception is not None:
+                r.violation(f"C08/interrupted/resume-raises/other-n_samples/{rr.exception[0]}", rr.exception, case)
+                continue
+            for sig, detail in check_evidence(dict(to_rec(rr), result=rr.result)):
+                r.violation(sig + "/resumed-with-another-n_samples", detail, case)
     r.sample({"interrupted": True, "cfg": cfg, "crash_points": R.n_calls})
     return r.dump()
 
